@@ -1036,9 +1036,9 @@ class Device(device.Device):
 
     def send_rsp_recv_cmd(self, target, data, timeout):
         # print("\n".join(self._print_ciu_register_page(0, 1)))
-        if target.tt3_cmd:
-            return self._tt3_send_rsp_recv_cmd(target, data, timeout)
         try:
+            if target.tt3_cmd:
+                return self._tt3_send_rsp_recv_cmd(target, data, timeout)
             if data:
                 self.chipset.tg_response_to_initiator(data)
             return self.chipset.tg_get_initiator_command(timeout)
